@@ -139,6 +139,15 @@ def eval_case(ctx, case):
                         if rec["path"] == "blob.bin":
                             for h in rec["hashes"]:
                                 chk("create", h["format"], h["digest"], 1)
+        # ... nor on how the file is reached: through a symbolic link (whose own size is that of its target text) the bytes are the same
+        if case.get("cli"):
+            link = os.path.join(os.path.dirname(path), "link-to-blob")
+            os.symlink(path, link)
+            for fmt in ref.FORMATS_LIB:
+                chk("hash_file-through-symlink", fmt, H.hash_file(link, fmt))
+            for f, d in H.multiple_format_hash_file(link, list(ref.FORMATS_LIB)).items():
+                chk("multiple_format_hash_file-through-symlink", f, d, 7)
+            os.remove(link)
         # the digest depends on the bytes only: the same path rewritten in place with other bytes of the same length, same inode,
         # size and (restored) mtime must hash to the digest of the NEW bytes - in the same process
         if n > 0 and case.get("cli"):
@@ -406,7 +415,7 @@ def main(tier, seed):
                    "singletons, pairs, full set + reversed; thorough: all 127 non-empty subsets of the 7 library formats in "
                    "ascending and descending order) x entry points {hash_file, hash_data, streaming update split at each boundary, "
                    "multiple_format_hash_file, multiple_format_hash_data, bytes_for_hash_string, ascmhl-debug hash, create, verify; the same path "
-                   "hashed again after it was rewritten in place with the same length, inode and mtime}; "
+                   "hashed again after it was rewritten in place with the same length, inode and mtime, and through a symbolic link}; "
                    "all byte strings of length <=2 over {00,0A,61,FF}; C4 codec driven with a stub hasher over the structured "
                    "512-bit family; distinct = distinct (length, content, entry point, format, set size) combinations compared "
                    "with hashlib/xxhash one-shot digests and the own base-58 codec"}
